@@ -52,8 +52,44 @@ def kinds(ctx):
     return out
 
 
+# what RFC 7518 says an algorithm name implies for a key (independent of the table regenerated from the code)
+SPEC_PREP = {}
+for _a, _n in (("HS256", 32), ("HS384", 48), ("HS512", 64), ("A128KW", 16), ("A192KW", 24), ("A256KW", 32), ("A128GCMKW", 16), ("A192GCMKW", 24),
+               ("A256GCMKW", 32), ("A128GCM", 16), ("A192GCM", 24), ("A256GCM", 32), ("A128CBC-HS256", 32), ("A192CBC-HS384", 48), ("A256CBC-HS512", 64),
+               ("PBES2-HS256+A128KW", 16), ("PBES2-HS384+A192KW", 24), ("PBES2-HS512+A256KW", 32)):
+    SPEC_PREP[_a] = {"alg": _a, "kty": "oct", "bytes": _n}
+for _a, _c in (("ES256", "P-256"), ("ES384", "P-384"), ("ES512", "P-521"), ("ES256K", "secp256k1")):
+    SPEC_PREP[_a] = {"alg": _a, "kty": "EC", "crv": _c, "crv_strict": True}
+for _a in ("ECDH-ES", "ECDH-ES+A128KW", "ECDH-ES+A192KW", "ECDH-ES+A256KW", "ECDH", "ECMR"):
+    SPEC_PREP[_a] = {"alg": _a, "kty": "EC", "crv": "P-521" if _a in ("ECDH", "ECMR") else "P-521", "crv_strict": False}
+for _a in ("RS256", "RS384", "RS512", "PS256", "PS384", "PS512", "RSA1_5", "RSA-OAEP", "RSA-OAEP-224", "RSA-OAEP-256", "RSA-OAEP-384", "RSA-OAEP-512"):
+    SPEC_PREP[_a] = {"alg": _a, "kty": "RSA"}
+
+
 def prep_rows(ctx):
-    return {r["alg"]: r for r in ctx.tables["prep"]}
+    rows = dict(SPEC_PREP)
+    # default curves of the key-agreement algorithms are the library's choice, not the RFC's: taken from the code
+    for r in ctx.tables["prep"]:
+        if r["alg"] in rows and not rows[r["alg"]].get("crv_strict") and rows[r["alg"]].get("kty") == "EC":
+            rows[r["alg"]] = dict(rows[r["alg"]], crv=r.get("crv"), crv_strict=bool(r.get("crv_strict")))
+    return rows
+
+
+def table_mismatches(ctx):
+    """the regenerated PREP table against the RFC: every difference is a violation (the model follows the table)"""
+    out = []
+    reg = {r["alg"]: r for r in ctx.tables["prep"]}
+    for a, sp in SPEC_PREP.items():
+        r = reg.get(a)
+        if r is None:
+            out.append("%s has no PREP hook" % a)
+            continue
+        for k in ("kty", "bytes"):
+            if sp.get(k) is not None and r.get(k) != sp[k]:
+                out.append("%s implies %s=%r, RFC 7518 says %r" % (a, k, r.get(k), sp[k]))
+        if sp.get("crv_strict") and (r.get("crv") != sp["crv"] or not r.get("crv_strict")):
+            out.append("%s must fix the curve to %s and refuse another (table: crv=%r strict=%r)" % (a, sp["crv"], r.get("crv"), r.get("crv_strict")))
+    return out
 
 
 def i_of(b):
@@ -414,6 +450,8 @@ def run_fresh(ctx):
 
 
 def run(ctx):
+    for m in table_mismatches(ctx):
+        ctx.pfails.append(("gen:prep-table", m, "tables", {}, {}))
     run_grid(ctx)
     run_fresh(ctx)
 
